@@ -251,6 +251,16 @@ static void l3_product(long shard, void *arg) {
         check_email("L3product", t, l); MC_ADD(C_L3, 1);
     }
 }
+/* folding white space inside a long quoted local part: the 64-octet limit counts the octets as they are, folded or not (shard = length 58..75) */
+static void l3_folded(long shard, void *arg) {
+    (void)arg; int ln = 58 + (int)shard; unsigned char t[128];
+    for (int nf = 1; nf <= 3; nf++) for (int pos = 1; pos + 3 * nf < ln - 1; pos += 5) for (int ws = 0; ws < 2; ws++) {
+        size_t l = 0; t[l++] = '"';
+        for (int i = 1; i < ln - 1; ) { int k = (i - pos) / 3; if (i >= pos && (i - pos) % 3 == 0 && k < nf && i + 3 <= ln - 1) { t[l++] = '\r'; t[l++] = '\n'; t[l++] = ws ? '\t' : ' '; i += 3; } else { t[l++] = 'q'; i++; } }
+        t[l++] = '"'; memcpy(t + l, "@ok.com", 7); l += 7;
+        check_email("L3folded", t, l); MC_ADD(C_L3, 1);
+    }
+}
 static void l3_at(long shard, void *arg) {
     (void)arg; (void)shard;
     static const char *const SK[] = { "ab.cd.efgh", "\"ab\".cd.ef", "a[1.2.3.4]", "ab.[::1].c" };
@@ -409,6 +419,7 @@ int main(int argc, char **argv) {
     mc_parallel("L3: local part length 0..70 x 5 shapes x 5 domains", 71, l3_lpart, NULL);
     mc_parallel("L3: domain length 1..262 x label sizes x root dot", 262, l3_domlen, NULL);
     mc_parallel("L3: local part 1..70 octets (3 shapes) x domain 240..262 characters (3 layouts, root dot): both halves near their limits", 70, l3_product, NULL);
+    mc_parallel("L3: quoted local parts of 58..75 octets with 1-3 CRLF-SP / CRLF-HT folds at every fifth position", 18, l3_folded, NULL);
     mc_parallel("L3: 0-4 '@' at every position of 4 skeletons; every '['..']' placement", 1, l3_at, NULL);
     memset(&L4E, 0, sizeof L4E); L4E.A = SIGLIT; L4E.nA = 7; L4E.N = mc_thorough ? 8 : 7; L4E.k = 2; L4E.fn = l4_cb;
     mc_parallel("L4: all bracket contents over {1 0 a : . IPv6: 25}", mc_enum_shards(&L4E), l4_shard, NULL);
@@ -419,7 +430,7 @@ int main(int argc, char **argv) {
     munmap(HB, HBCAP);
     mc_parallel("L6: 8 local-part shapes around every byte 0x01-0xFF x 24 domain shapes", 255, l6_shard, NULL);
     if (corpus_load()) return 2;
-    { static const int PH[] = { CP_LONGIDN, CP_ALTDOT, CP_LABELLEN, CP_MAXLIT, CP_LPXDOM, CP_WHOLEDOM, CP_DEPTH, CP_EMBED };
+    { static const int PH[] = { CP_LONGIDN, CP_ALTDOT, CP_LABELLEN, CP_MAXLIT, CP_LPXDOM, CP_WHOLEDOM, CP_DEPTH, CP_EMBED, CP_SHORTLAB };
       for (unsigned i = 0; i < sizeof PH / sizeof PH[0]; i++) { L5PH = PH[i]; char nm5[80]; snprintf(nm5, sizeof nm5, "L5: %.60s", corpus_name(L5PH)); mc_parallel(nm5, corpus_shards(L5PH), l5_shard, NULL); } }
     int N = mc_thorough ? 8 : 6;
     memset(&L1E, 0, sizeof L1E); L1E.A = SIGC; L1E.nA = NSIGC; L1E.N = N; L1E.k = 3; L1E.fn = l1_cb;
